@@ -891,6 +891,21 @@ class Solver:
             return
         if e[0] == "discr":
             inner = strip_refs(e[1])
+            while inner[0] in ("ref", "rawptr", "deref"):
+                inner = strip_refs(inner[2] if inner[0] != "deref" else inner[1])
+            if inner[0] == "field" and len(inner) > 3 and inner[3] and base_type(inner[3]) == "repr::last_byte::LastByte" and self.canon(body, tracked, inner[1]) == "self":
+                # `matches!(self.2, LastByte::HeapMarker)`: the tag byte read as the enum it is
+                hm, sm = self.heap_marker, self.static_marker
+                for s in cur:
+                    lo, hi = {"H": (hm, hm), "S": (sm, sm), "I": (0, hm - 1), "U": (0, 255)}[s.kind]
+                    vals = {v for v, _ in arms}
+                    for av, ab in arms:
+                        if lo <= av <= hi:
+                            add(ab, {s})
+                    if any(x not in vals for x in range(lo, hi + 1)):
+                        add(otherwise, {s})
+                return
+            inner = strip_refs(e[1])
             if inner[0] == "mem":
                 ds = body.defs.get(inner[1], [])
                 if len(ds) == 1 and ds[0][1] == "term":
@@ -1312,6 +1327,9 @@ class Solver:
                 # to be Ok take it; they are marked so that the API-level exit can be judged (C05)
                 a0 = strip_refs(args[0])
                 src = a0[1] if a0[0] == "call" else None
+                up = self.unwrap_payload(body, a0) if a0[0] == "field" else None
+                if up is not None:
+                    src = up[0]    # panic_with_msg(e) on the Err arm of a written-out match
                 st = set()
                 for s in cur:
                     cls = dict((a, b) for (a, b) in s.facts if isinstance(a, int)).get(src)
@@ -1352,7 +1370,7 @@ class Solver:
         return self._uwname
 
     def _is_alloc_panic(self, n):
-        return n.endswith("::unwrap_with_msg") or n == self._uw()[0]
+        return n.endswith("::unwrap_with_msg") or (n is not None and n in self._uw())
 
     def _unwind_cls(self, s):
         return "unwind:alloc" if ("allocpanic", True) in s.facts else "unwind"
